@@ -335,4 +335,27 @@ WITNESSES = [
          new="                hidden = []\n                if isinstance(obj, e.Polynom):\n                    for t in obj.sympy.atoms(SymbolicTensor):\n"
              "                        if t.name == t_name:\n                            hidden.append(t)\n                if hidden:\n"
              "                    raise NotImplementedError("),
+
+    # ---- F57: the names of the target indices (incl. the indices of occurrences removed before) are not available for the
+    # new indices of target / repeated indices
+    dict(id="c14-f57-revert", prop="C14", file=S, expect="R14c",
+         old="        for idx_key, names in target_indices.items():\n            if idx_key not in used_indices:\n                used_indices[idx_key] = set()\n            used_indices[idx_key].update(names)\n", new=""),
+    dict(id="c14-f57-only-known-classes", prop="C14", file=S, expect="R14c",
+         old="        for idx_key, names in target_indices.items():\n            if idx_key not in used_indices:\n                used_indices[idx_key] = set()\n            used_indices[idx_key].update(names)\n",
+         new="        for idx_key, names in target_indices.items():\n            if idx_key in used_indices:\n"
+             "                used_indices[idx_key].update(names)\n"),
+    dict(id="c14-f57-after-the-target-indices", prop="C14", file=S, expect="R14c", edits=[
+        ("        for idx_key, names in target_indices.items():\n            if idx_key not in used_indices:\n                used_indices[idx_key] = set()\n            used_indices[idx_key].update(names)\n", ""),
+        ("        # - check for repeating indices:\n", "        for idx_key, names in target_indices.items():\n            if idx_key not in used_indices:\n                used_indices[idx_key] = set()\n            used_indices[idx_key].update(names)\n        # - check for repeating indices:\n")]),
+    dict(id="c14-ok-f57-setdefault", prop="C14", file=S, expect=None,
+         old="        for idx_key, names in target_indices.items():\n            if idx_key not in used_indices:\n                used_indices[idx_key] = set()\n            used_indices[idx_key].update(names)\n",
+         new="        for idx_key in target_indices:\n            used_indices.setdefault(idx_key, set()).update(target_indices[idx_key])\n"),
+    dict(id="c14-ok-f57-pool-starts-from-targets", prop="C14", file=S, expect=None, edits=[
+        ("        used_indices = {}\n        for s in set(s for s, _ in term._idx_counter):",
+         "        used_indices = {key: set(val) for key, val in target_indices.items()}\n        for s in set(s for s, _ in term._idx_counter):"),
+        ("        for idx_key, names in target_indices.items():\n            if idx_key not in used_indices:\n                used_indices[idx_key] = set()\n            used_indices[idx_key].update(names)\n", "")]),
+    dict(id="c14-ok-f57-after-the-tensor-indices", prop="C14", file=S, expect=None, edits=[
+        ("        for idx_key, names in target_indices.items():\n            if idx_key not in used_indices:\n                used_indices[idx_key] = set()\n            used_indices[idx_key].update(names)\n", ""),
+        ("            used_indices[idx_key].add(s.name)\n\n        if tensor_target_indices:",
+         "            used_indices[idx_key].add(s.name)\n        for idx_key, names in target_indices.items():\n            if idx_key not in used_indices:\n                used_indices[idx_key] = set()\n            used_indices[idx_key].update(names)\n\n        if tensor_target_indices:")]),
 ]
